@@ -106,12 +106,15 @@ def model_state(p):
             except Exception:  # noqa: BLE001
                 val, cl = None, []
             imp.append({"p": pshort(part), "tree": tid, "val": val, "cl": cl})
-        cells.append(dict(a, imp_entries=imp))
-    in_data = []
-    for k in CLASSES:
-        inst = getattr(p.cells, attrs[k])
-        in_data.append(any(inst is d for d in p.data_inputs))
-    return {"mode": snap["mode"], "cells": cells, "flags": snap["flags"], "vol_calc": snap["vol_calc"], "in_data_inputs": in_data}
+        cells.append(dict(a, imp_entries=imp, ntr_raw=bool(c._universe.not_truncated)))
+    insts = {id(getattr(p.cells, attrs[k])): k for k in CLASSES}
+    data_inputs = []
+    for d in p.data_inputs:
+        k = insts.get(id(d))
+        if k is not None or not data_inputs or data_inputs[-1] is not None:
+            data_inputs.append(k)  # runs of other inputs are one opaque item
+    return {"mode": snap["mode"], "cells": cells, "flags": snap["flags"], "vol_calc": bool(p.cells._volume._calc_by_mcnp),
+            "data_inputs": data_inputs}
 
 
 # --------------------------------------------------------------------------- operations
@@ -289,6 +292,8 @@ def judge_write(api, text, den, err):
             return None  # documented refusal: FILL with a transform / matrix cannot be printed in the data block
         if err == "ParticleTypeNotInCell" and flags["imp"] and any(c["imp"][m] is None for c in api["cells"] for m in api["mode"]):
             return None  # deliberate refusal: an IMP vector cannot have a hole, and some cell holds no importance for a particle of MODE
+        if err == "IllegalState":
+            return None  # validate() refuses an incomplete object (no geometry, density without material): deliberate, not per-cell data
         return ("write-raised", _guess_datum(err), err)
     exp = expected_data(api)
     ncell = len(api["cells"])
@@ -343,7 +348,7 @@ def judge_write(api, text, den, err):
 def _is_default(b, vals):
     if not vals or vals[0] == "J":
         return True
-    if b in ("u", "fill") and isinstance(vals[0], dict) and "n" in vals[0] and vals[0]["n"][0] == 0:
+    if b in ("u", "fill", "imp") and isinstance(vals[0], dict) and "n" in vals[0] and vals[0]["n"][0] == 0:
         return True
     return False
 
@@ -355,7 +360,7 @@ def _guess_datum(err):
 def after_terminator(text):
     """harness-level diagnosis only (never a verdict): non-blank lines after the blank line that ends the third block"""
     lines = text.split("\n")
-    blanks = 0
+    blanks = -1 if lines and lines[0][:8].lower() == "message:" else 0
     i = 1
     while i < len(lines) and blanks < 3:
         if not lines[i].strip():
